@@ -322,6 +322,12 @@ M("C18", GA, """            data = {bits: coeff for bits, coeff in data.items()
                     if not is_zero(coeff)}""", """            pass""", "revert of fix 0178b1f (explicit zeros kept)")
 
 AL = "pymbolic/algorithm.py"
+M("C19", "pymbolic/rational.py", """            numerator //= d_unit
+            denominator //= d_unit""", """            numerator /= d_unit
+            denominator /= d_unit""", "revert of fix 01bce4f (Rational keeps integers exact)")
+M("C10", "pymbolic/rational.py", """            numerator //= d_unit
+            denominator //= d_unit""", """            numerator /= d_unit
+            denominator /= d_unit""", "revert of fix 01bce4f (log of a constant differentiates)")
 M("C19", AL, """        x = x * x
         n //= 2""", """        x = x * x
         n -= 1""", "square-and-multiply halves wrongly")
